@@ -166,6 +166,8 @@ pub enum CaseResult {
     Fine(u64),
     Panic { history: Vec<String>, message: String },
     Hang { history: Vec<String> },
+    /// C10 on damaged files: a call answered NotFound / AlreadyExists / InvalidInput changed the backing bytes
+    RefusedEffect { history: Vec<String>, message: String },
 }
 
 /// Runs a history (given, or generated from `seed`) on `image` under the watchdog.
@@ -184,6 +186,7 @@ pub fn run_case(image: Vec<u8>, seed: u64, given: Option<Vec<String>>, max_ops: 
             Ok(Ok(c)) => c,
         };
         let mut real = Real::new();
+        let backing = shared.clone();
         real.file = Some(ImageSource::Mem(shared));
         real.comp = Some(comp);
         let mut open: Vec<(u32, String)> = Vec::new();
@@ -212,7 +215,12 @@ pub fn run_case(image: Vec<u8>, seed: u64, given: Option<Vec<String>>, max_ops: 
                 }
             };
             p2.lock().unwrap().push(line.clone());
+            let before = backing.snapshot();
             let r = real.exec(&line);
+            if (r.starts_with("err notFound") || r.starts_with("err alreadyExists") || r.starts_with("err invalidInput")) && backing.snapshot() != before {
+                let _ = tx.send(CaseResult::RefusedEffect { history: p2.lock().unwrap().clone(), message: r.clone() });
+                return;
+            }
             if given.is_some() {
                 println!("STEP {} => {} | {} | {}", crate::apigen::short(&line), crate::apigen::short(&r), real.handle_states(), catch(|| real.dirtable()).unwrap_or_default());
             }
@@ -251,6 +259,7 @@ pub fn campaign(seed: u64, bases: &str, count: u64, max_ops: u64, keepdir: &str)
     std::fs::create_dir_all(keepdir).unwrap();
     let mut hist = std::collections::BTreeMap::new();
     let (mut accepted, mut ops, mut kept) = (0u64, 0u64, 0u64);
+    let mut refused_kept = 0u64;
     let mut seen_sites = std::collections::HashSet::new();
     for k in 0..count {
         let mut b = rng.pick(&images).clone();
@@ -281,6 +290,18 @@ pub fn campaign(seed: u64, bases: &str, count: u64, max_ops: u64, keepdir: &str)
                     println!("ORACLE case {} (seed {}; corruptions {}): {} panicked: {} [image {} history {}/case{}.history]", k, seed, classes.join("+"), history.last().map(|s| short(s)).unwrap_or_default(), message.chars().take(200).collect::<String>(), img, keepdir, k);
                 }
                 *hist.entry(format!("panic:{}", site.chars().take(50).collect::<String>())).or_insert(0) += 1;
+            }
+            CaseResult::RefusedEffect { history, message } => {
+                accepted += 1;
+                ops += history.len() as u64;
+                if refused_kept < 6 {
+                    refused_kept += 1;
+                    let img = format!("{}/refused{}.cfb", keepdir, k);
+                    std::fs::write(&img, &b).unwrap();
+                    std::fs::write(format!("{}/refused{}.history", keepdir, k), history.join("\n") + "\n").unwrap();
+                    println!("REFUSED-EFFECT case {} (seed {}; corruptions {}): {} was answered `{}` but changed the backing bytes [image {} history {}/refused{}.history]", k, seed, classes.join("+"), history.last().map(|s| short(s)).unwrap_or_default(), message.chars().take(120).collect::<String>(), img, keepdir, k);
+                }
+                *hist.entry("refused-call-changed-bytes".to_string()).or_insert(0) += 1;
             }
             CaseResult::Hang { history } => {
                 accepted += 1;
@@ -317,6 +338,7 @@ pub fn replay(image_path: &str, history_path: &str) {
         CaseResult::Fine(n) => println!("RESULT fine after {} calls", n),
         CaseResult::Panic { history, message } => println!("ORACLE replay: {} panicked: {}", history.last().cloned().unwrap_or_default(), message),
         CaseResult::Hang { history } => println!("ORACLE replay: {} made no progress for 15 s (hang)", history.last().cloned().unwrap_or_default()),
+        CaseResult::RefusedEffect { history, message } => println!("REFUSED-EFFECT replay: {} was answered `{}` but changed the backing bytes", history.last().cloned().unwrap_or_default(), message),
     }
 }
 
